@@ -68,7 +68,7 @@ class CodeQLResult(SarifResult):
 class CodeQLResultSet(ResultSet):
     @classmethod
     def from_sarif(cls, sarif_file: str | Path, truncate_rule_id: bool = False) -> Self:
-        with open(sarif_file, "r", encoding="utf-8") as f:
+        with open(sarif_file, "r", encoding="utf-8-sig") as f:
             data = json.load(f)
 
         result_set = cls()
